@@ -425,7 +425,10 @@ fn emit(sessions: &[(String, Context)], w0: &World, out: &mut Out, c: &Case, cou
         out.line(req, ans);
     }
     for (kind, what) in o.fails {
-        let small = shrink(base, plain, w0, c, &kind);
+        // minimise the first few failures of every kind; later ones are reported as generated
+        let seen = out.histogram.get(&format!("failures:{kind}")).copied().unwrap_or(0);
+        out.count(&format!("failures:{kind}"));
+        let small = if seen < 8 { shrink(base, plain, w0, c, &kind) } else { Case { session: c.session.clone(), f: c.f.clone(), calls: c.calls.clone() } };
         let what2 = run_case(base, plain, w0, &small).fails.into_iter().find(|(k, _)| *k == kind).map(|x| x.1).unwrap_or(what);
         let S::Fn { .. } = &small.f else { return };
         let key = format!("{}:{}:{}", kind, small.session, small.f.src());
